@@ -309,3 +309,25 @@ func Budget(steps int) {}
 // UseSolver routes the solver queries of this path to a one-shot back end
 // ("cvc5-int" = cvc5 --solve-bv-as-int=sum). No-op natively.
 func UseSolver(kind string) {}
+
+// TempDir returns a fresh directory for storage harnesses: a real temporary directory
+// natively (removed by the test process on exit is not guaranteed; it lives under
+// os.TempDir()), a path inside the file-system model under the engine.
+func TempDir(name string) string {
+	d, err := os.MkdirTemp("", "hcverif-"+name+"-")
+	if err != nil {
+		panic(err)
+	}
+	tempDirs = append(tempDirs, d)
+	return d
+}
+
+var tempDirs []string
+
+// CleanupTempDirs removes the directories handed out by TempDir.
+func CleanupTempDirs() {
+	for _, d := range tempDirs {
+		os.RemoveAll(d)
+	}
+	tempDirs = nil
+}
